@@ -12,7 +12,7 @@ def job_scripts(rng, n, maxops):
     prof['threads'] = [1, 2, 3, 4, 7, 15]
     prof['jobs'] = [{'reqs': [(0, 1)], 'check': []}, {'reqs': [(0, 0), (1, 3)], 'check': []}, {'reqs': [(0, 1), (2, 1)], 'check': []},
                     {'reqs': [(0, 1)], 'check': [0]}, {'reqs': [(0, 0), (1, 3)], 'check': [0]}]
-    prof['weights'] = dict(prof['weights'], runjob=30, lock=4, unlock=6, assign=10, create=28, sparse=5)
+    prof['weights'] = dict(prof['weights'], runjob=30, lock=4, unlock=6, assign=10, create=28, sparse=5, jobdo=0, jobedit=0)    # callbacks with structural calls are driven in current-thread runs only (C04/C07/C18): the driver names the handles they create without a lock
     out = []
     for i in range(n):
         lines = mgr.gen_script(rng.fork('c06-%d' % i), maxops, prof)
